@@ -367,7 +367,7 @@ func C18(r *core.Report) {
 	r.Floor("C18.R2", 1)
 	r.Floor("C18.R3", 1)
 	r.Floor("C18.R4", 1)
-	r.Floor("C18.R5", 2)
+	r.Floor("C18.R5", 1)
 }
 
 // c18Classification (R5): findEpochNumberFromSignature.
